@@ -373,7 +373,7 @@ func runC18(t *sim.T, tier string) *sim.Violation {
 
 	// ---- concurrent phase
 	got := make([][]c18Result, nTasks)
-	verifhook.Hook = sched.Yield
+	verifhook.SetHook(sched.Yield)
 	before := runtime.NumGoroutine()
 	for i := range progs {
 		i := i
@@ -386,7 +386,7 @@ func runC18(t *sim.T, tier string) *sim.Violation {
 	}
 	start := time.Now()
 	sched.Run()
-	verifhook.Hook = nil
+	verifhook.SetHook(nil)
 	_ = start
 	if after := runtime.NumGoroutine(); after > before+0 {
 		// task goroutines have exited by now (they sent their final message); allow a moment
